@@ -227,6 +227,16 @@ pub static mut PROBE_WEAK: Option<Weak<u64>> = None;
 pub static mut NEST_BAD: u32 = 0;
 pub static mut NEST_DONE: u32 = 0;
 
+/// Buffers the probe object (if there is one): one of two pointers to it is dropped.
+pub fn buffer_probe() {
+    unsafe {
+        if let Some(p) = &*core::ptr::addr_of!(PROBE) {
+            let extra = p.clone();
+            drop(extra);
+        }
+    }
+}
+
 /// Called from inside finalizers and destructors: try_unwrap must fail, finalize_again must panic, nothing changes.
 pub fn nested_probe() {
     unsafe {
